@@ -34,19 +34,19 @@ def Src.skipData (n : Nat) (s : Src) : Src :=
   else ⟨[], s.rest, s.skip + (n - s.buf.length)⟩
 
 section Generic
-variable {σ : Type}
+variable {σ α : Type}
 
-/-- a unit of work: from a saved state and the unread bytes, either finish (new state, bytes
+/-- a unit of work: from a saved state and the unread input (bytes for the marker reader, bits for the entropy decoder), either finish (new state, bytes
 consumed) or suspend (`none`) without side effects -/
-abbrev Step (σ : Type) := σ → List Nat → Option (σ × Nat)
+abbrev Step (σ : Type) (α : Type := Nat) := σ → List α → Option (σ × Nat)
 
 /-- what every suspendable unit of libjpeg guarantees: it never consumes more than it was
 given and, once it can finish, more bytes behind do not change what it does -/
-def Stable (step : Step σ) : Prop :=
+def Stable (step : Step σ α) : Prop :=
   ∀ s d s' n e, step s d = some (s', n) → n ≤ d.length ∧ step s (d ++ e) = some (s', n)
 
 /-- an execution against a chunked source: final state and unread bytes -/
-inductive ChunkRun (step : Step σ) : σ → List Nat → List (List Nat) → σ → List Nat → Prop
+inductive ChunkRun (step : Step σ α) : σ → List α → List (List α) → σ → List α → Prop
   | done (s buf) : step s buf = none → ChunkRun step s buf [] s buf
   | adv (s buf cs s' n sf lf) : step s buf = some (s', n) → ChunkRun step s' (buf.drop n) cs sf lf → ChunkRun step s buf cs sf lf
   | more (s buf c cs sf lf) : step s buf = none → ChunkRun step s (buf ++ c) cs sf lf → ChunkRun step s buf (c :: cs) sf lf
